@@ -6,7 +6,7 @@ import ecdsa
 
 PID = "C07"
 LEAN_MODULES = ["BtcHd.Props.C07", "BtcHd.Props.RealInst.C07"]
-LEAN_MODULES_THOROUGH = ['BtcHd.Props.TrBip32', 'BtcHd.Props.TrWallet']
+LEAN_MODULES_THOROUGH = ['BtcHd.Props.TrBip32', 'BtcHd.Props.TrWallet', 'BtcHd.Props.TrVersion']
 TRUSTED_BASE = common.CORE_TRUSTED + [
     "curve facts (sec/parse round trip, 33-byte compressed points) are explicit CurveLaws hypotheses of the theorems; "
     "the driver's concrete secp256k1 is compared with python-ecdsa on every case"]
